@@ -1,4 +1,4 @@
-use std::{cmp, collections::VecDeque, marker::PhantomData};
+use std::{collections::VecDeque, marker::PhantomData};
 
 use daggy::{petgraph::visit::IntoNodeReferences, Dag, Walker};
 
@@ -42,9 +42,15 @@ impl<F> RankCalc<F> {
 
                     // Update child rank to be the greater of any previously calculated rank, and
                     // the rank computed from this iteration.
-                    ranks[child_fn_id.index()] = cmp::max(child_rank_existing, child_rank_maybe);
+                    //
+                    // The child only needs to be revisited when its rank was raised; revisiting
+                    // it unconditionally walks every path through the graph, which is
+                    // exponential for layered graphs.
+                    if child_rank_maybe > child_rank_existing {
+                        ranks[child_fn_id.index()] = child_rank_maybe;
 
-                    fn_ids.push_back(child_fn_id);
+                        fn_ids.push_back(child_fn_id);
+                    }
                 });
         }
 
